@@ -17,6 +17,13 @@ Fixpoint lstrip (s : str) : str :=
   match s with c :: r => if is_space c then lstrip r else s | [] => [] end.
 Definition strip (s : str) : str := rev (lstrip (rev (lstrip s))).
 
+(* the whitespace int() strips is not str.isspace(): U+001C..U+001F are isspace() but make int() fail (table generated
+   from int() itself) *)
+Definition is_intspace (c : N) : bool := mem c uni_intspace.
+Fixpoint lstrip_int (s : str) : str :=
+  match s with c :: r => if is_intspace c then lstrip_int r else s | [] => [] end.
+Definition strip_int (s : str) : str := rev (lstrip_int (rev (lstrip_int s))).
+
 (* digits with single underscores between them; acc = value so far; prev_us = last char was '_' *)
 Fixpoint int_digits (s : str) (acc : N) (prev_us : bool) : option N :=
   match s with
@@ -31,7 +38,7 @@ Fixpoint int_digits (s : str) (acc : N) (prev_us : bool) : option N :=
 
 (* int(s) for a str, base 10: None = ValueError *)
 Definition py_int (s : str) : option Z :=
-  let t := strip s in
+  let t := strip_int s in
   let '(neg, body) := match t with
                       | c :: r => if c =? chr_minus then (true, r) else if c =? chr_plus then (false, r) else (false, t)
                       | [] => (false, [])
